@@ -7,7 +7,24 @@ pub fn take_diff<T: SizedType>(
     old_skeleton: &StateTreeSkeleton<T>,
     new_skeleton: &StateTreeSkeleton<T>,
 ) -> HashSet<CopyFromPatch> {
-    build_patches_recursive(old_skeleton, new_skeleton, vec![], vec![])
+    build_patches_recursive(old_skeleton, new_skeleton, vec![], vec![]).0
+}
+
+/// Number of nodes in a subtree.
+fn node_count<T: SizedType>(node: &StateTreeSkeleton<T>) -> usize {
+    match node {
+        StateTreeSkeleton::FnCall(children) => {
+            1 + children.iter().map(|c| node_count(c)).sum::<usize>()
+        }
+        _ => 1,
+    }
+}
+
+/// Score of carrying a whole subtree over: the number of nodes it preserves.
+/// (Counting copy operations instead would rate a fully matching subtree no
+/// higher than a sibling that shares a single leaf with it.)
+fn subtree_weight<T: SizedType>(node: &StateTreeSkeleton<T>) -> f64 {
+    node_count(node) as f64
 }
 
 /// Enum representing the result of LCS algorithm
@@ -55,8 +72,8 @@ pub fn lcs_by_score<T>(
         if i > 0 && j > 0 {
             let score = score_fn(&old[i - 1], &new[j - 1]);
 
-            if score > 0.0 {
-                // Likely matched
+            if score > 0.0 && dp[i][j] == dp[i - 1][j - 1] + score {
+                // Matched: this pair is the one the table entry was built from
                 results.push(DiffResult::Common {
                     old_index: i - 1,
                     new_index: j - 1,
@@ -124,7 +141,7 @@ fn build_patches_recursive<T: SizedType>(
     new_skeleton: &StateTreeSkeleton<T>,
     old_path: Vec<usize>,
     new_path: Vec<usize>,
-) -> HashSet<CopyFromPatch> {
+) -> (HashSet<CopyFromPatch>, f64) {
     // Retrieve the current node from the path
     let old_node = get_node_at_path(old_skeleton, &old_path).expect("Invalid old_path");
     let new_node = get_node_at_path(new_skeleton, &new_path).expect("Invalid new_path");
@@ -144,13 +161,14 @@ fn build_patches_recursive<T: SizedType>(
             "Size mismatch between matched nodes at old_path {old_path:?} and new_path {new_path:?}"
         );
 
-        return [CopyFromPatch {
+        let patch = [CopyFromPatch {
             src_addr,
             dst_addr,
             size,
         }]
         .into_iter()
         .collect();
+        return (patch, subtree_weight(old_node));
     }
 
     match (old_node, new_node) {
@@ -161,17 +179,14 @@ fn build_patches_recursive<T: SizedType>(
                 for new_idx in 0..new_children.len() {
                     let child_old_path = [old_path.clone(), vec![old_idx]].concat();
                     let child_new_path = [new_path.clone(), vec![new_idx]].concat();
-                    let patches = build_patches_recursive(
+                    // The score of a pair is the amount of state it carries over, not
+                    // the number of copy operations needed to do so.
+                    let (patches, score) = build_patches_recursive(
                         old_skeleton,
                         new_skeleton,
                         child_old_path,
                         child_new_path,
                     );
-                    let score = if patches.is_empty() {
-                        0.0
-                    } else {
-                        patches.len() as f64
-                    };
                     child_patches_map.push(((old_idx, new_idx), patches, score));
                 }
             }
@@ -194,21 +209,23 @@ fn build_patches_recursive<T: SizedType>(
 
             // Collect patches based on LCS results
             let mut c_patches = HashSet::new();
+            let mut c_score = 0.0;
             for result in &lcs_results {
                 if let DiffResult::Common {
                     old_index,
                     new_index,
                 } = result
-                    && let Some((_, patches, _)) = child_patches_map
+                    && let Some((_, patches, score)) = child_patches_map
                         .iter()
                         .find(|((o, n), _, _)| o == old_index && n == new_index)
                 {
                     c_patches.extend(patches.iter().cloned());
+                    c_score += score;
                 }
             }
 
-            c_patches
+            (c_patches, c_score)
         }
-        _ => HashSet::new(),
+        _ => (HashSet::new(), 0.0),
     }
 }
